@@ -440,13 +440,20 @@ func (c *Cluster) checkRegion(e *Exec, spec *pb.RegionSpecifier, row []byte, nee
 	return r, "", ""
 }
 
-func nonceOfMutation(m *pb.MutationProto, cells []Cell) uint64 {
+func (c *Cluster) nonceOfMutation(m *pb.MutationProto, cells []Cell) uint64 {
 	if m.GetMutateType() == pb.MutationProto_DELETE {
 		if m.Timestamp != nil {
 			return m.GetTimestamp()
 		}
-		for _, c := range cells {
-			return c.TS
+		for _, cl := range cells {
+			if cl.TS != 0x7fffffffffffffff {
+				return cl.TS
+			}
+		}
+		// a delete of the latest version(s) carries no timestamp of its own: it
+		// is attributed by its row if the workload registered one
+		if c.RowNonce != nil {
+			return c.RowNonce(m.GetRow())
 		}
 		return 0
 	}
@@ -729,7 +736,7 @@ func (c *Cluster) Execute(req *Request) []byte {
 			c.Violate("C05 call=%d: mutate cellblock does not match associated_cell_count (%v, %d cells left over)", req.CallID, err, len(rest))
 		}
 		c.checkMutationCells(e, mu, cells)
-		e.Nonce = nonceOfMutation(mu, cells)
+		e.Nonce = c.nonceOfMutation(mu, cells)
 		e.ReqMut, e.ReqCells, e.ReqCond = mu, cells, m.Condition
 		e.Region = string(m.GetRegion().GetValue())
 		if srv.Aborted != "" {
@@ -1081,7 +1088,7 @@ func (c *Cluster) execMulti(req *Request, m *pb.MultiRequest,
 					c.Violate("C05 call=%d multi: %v", req.CallID, err)
 				}
 				c.checkMutationCells(e, a.Mutation, cells)
-				e.Nonce = nonceOfMutation(a.Mutation, cells)
+				e.Nonce = c.nonceOfMutation(a.Mutation, cells)
 				e.ReqMut, e.ReqCells = a.Mutation, cells
 			default:
 				c.Violate("C05 call=%d multi: action without get or mutation", req.CallID)
@@ -1345,8 +1352,14 @@ func (c *Cluster) execScan(req *Request, m *pb.ScanRequest,
 				sc.Keys = append(sc.Keys, k)
 			}
 		}
-		c.nextScan++
-		sc.ID = c.nextScan
+		if c.ScanKnobs.ZeroID && !c.zeroIDGiven && sc.Table != "hbase:meta" {
+			// a server that counts its scanner ids from 0: a legal id
+			c.zeroIDGiven = true
+			sc.ID = 0
+		} else {
+			c.nextScan++
+			sc.ID = c.nextScan
+		}
 		c.Scanners[sc.ID] = sc
 		e.ScannerID = sc.ID
 	}
